@@ -9,17 +9,20 @@ PROPS_MODULE = 'Refine.Props.C20'
 STREAMS = [streams_codec.C20_MESHB, streams_codec.C20_SOLB, streams_codec.C20_ROBUST,
            streams_codec.C20_HANG, streams_codec.C20_INDEX, streams_codec.C20_COUNT, streams_codec.C20_NAMES]
 EXPLANATION = (
-    'Obligations on the reader models (Refine/Props/C20.lean): totality; accepted_counts_fit (proved for the '
-    'faithful meshb reader); header_progress, accepted_indices_in_range, solb_alloc_bounded: FALSE of the '
-    'faithful readers - Lean proves the negations on concrete 20..92-byte files (*_counterexample) - and TRUE of '
-    'the variants with three maintainer-style checks (Cfg.fixed), proved there.  Tie: for every mutant (bit '
-    'flips, truncation at record boundaries, count/index/offset substitution, section duplication/reorder) on '
-    'which the selected model (Cfg.current) predicts a return, the C status and the dump of the accepted grid '
-    'equal the model\'s (c20_meshb_mut, c20_solb_mut, ASan+UBSan), and the user-level entry points '
-    'ref_import_by_extension+ref_export_by_extension / ref_part_scalar / ref_part_metric return (c20_robust).  '
-    'Streams c20_hang, c20_index, c20_count replay the Lean witnesses and the mutants of those classes against '
-    'the real readers in a forked child (alarm, allocator cap, peak-RSS check): while /repo lacks the checks '
-    'they fail deterministically (timeout / sanitizer abort / >300 MB touched) with stable sites '
+    'Obligations on the reader models (Refine/Props/C20.lean): totality; accepted_counts_fit; header_progress + '
+    'header_scan_returns (every hop of the keyword scan moves strictly forward, so the scan returns on every byte '
+    'string), accepted_indices_in_range (every vertex index of every accepted cell / geometry record is in '
+    '[0,nnode)), solb_alloc_bounded (what the scalar reader allocates is covered by bytes present in the file): '
+    'proved for the reader variant Cfg.fixed, which is the reader /repo has since the fix: commits 084384d, 92cf05c, '
+    'ee7a30e (Cfg.current = Cfg.fixed).  The *_counterexample theorems keep the Lean proofs that the three '
+    'obligations are FALSE of the reader as it was before those commits (Cfg.faithful) on concrete 20..92-byte '
+    'files.  Tie: for every mutant (bit flips, truncation at record boundaries, count/index/offset substitution, '
+    'section duplication/reorder) on which the selected model (Cfg.current) predicts a return, the C status and the '
+    'dump of the accepted grid equal the model\'s (c20_meshb_mut, c20_solb_mut, ASan+UBSan), and the user-level '
+    'entry points ref_import_by_extension+ref_export_by_extension / ref_part_scalar / ref_part_metric return '
+    '(c20_robust).  Streams c20_hang, c20_index, c20_count replay the Lean witnesses and the mutants of those classes '
+    'against the real readers in a forked child (alarm, allocator cap, peak-RSS check); if /repo loses one of the '
+    'checks they fail deterministically (timeout / sanitizer abort / >300 MB touched) with sites '
     'meshb-header-no-progress, meshb-vertex-index-unchecked, solb-declared-count-trusted.  Stream c20_names '
     'drives the suffix dispatch of ref_import_by_extension / ref_export_by_extension / ref_part_metric with file '
     'names shorter than the longest suffix (site by-extension-short-file-name; the out-of-bounds read before the '
